@@ -26,7 +26,7 @@ func TestCheck(t *testing.T) {
 	r.Require("decisions_with_byzantine_members", 50)
 	r.Require("zero_input_refused", 5)
 
-	n := r.N(6000, 600000)
+	n := r.N(6000, 150000)
 	r.Cases(n, 0, func(c *kit.Case) {
 		res := qbftsim.RunAsyncCase(c.Rng)
 		s := res.Sim
